@@ -1,4 +1,4 @@
-import Tmv.Lemmas.LightProv
+import Tmv.Lemmas.LightExpiry
 /-! C09 — the light client only trusts headers reachable by valid verification steps; a header is
 accepted by the forward paths only if some witness returned the identical header; a backed
 conflicting header yields the attack error with evidence. Theorems about the model
@@ -32,6 +32,50 @@ theorem verified_step_valid {cfg : Config} {t u : LightBlock} {now : Int}
 /-- whatever `VerifyBackwards` accepts is a hash-link step -/
 theorem verified_backstep_valid {u t : LightBlock} (h : verifyBackwards u t = true) : BackStep t u :=
   verifyBackwards_sound h
+
+/-! ## trusting period -/
+
+/-- the statement's "within the trusting period" is the code's notion: the TRUSTED header of the step
+is not expired at the local time `now` (`HeaderExpired`: expiration time `time + period` not after
+`now`), with the boundary on the expired side -/
+theorem valid_step_within_trusting_period {cfg : Config} {now : Int} {a b : LightBlock}
+    (h : ValidStep cfg now a b) : headerExpired a cfg.period now = false := by
+  have := h.2.2.2.2.2.2.2.2.2
+  simp [headerExpired]; omega
+
+theorem header_expired_iff (t : LightBlock) (p now : Int) :
+    headerExpired t p now = true ↔ t.time + p ≤ now := headerExpired_iff t p now
+
+/-- from an expired trusted header no forward step is accepted at all — adjacent or skipping, for any
+new header, however well signed -/
+theorem expired_header_never_steps {cfg : Config} {t u : LightBlock} {now : Int}
+    (h : headerExpired t cfg.period now = true) : verify cfg t u now = .error .expired :=
+  verify_expired ((headerExpired_iff _ _ _).mp h)
+
+/-- so with an expired latest trusted block `verifyLightBlock` (and with it `Update` and
+`VerifyLightBlockAtHeight` at or above the latest height) stores nothing new, in both modes, whatever
+the providers serve (long gaps cannot be bridged once the period is over) -/
+theorem forward_from_expired_rejected {c : Client} {latest new : LightBlock} {now : Int}
+    (hl : c.latest = some latest) (hge : new.height ≥ latest.height)
+    (h : headerExpired latest c.cfg.period now = true) :
+    (verifyLightBlock c new now).2 ≠ .ok () := by
+  have h' := (headerExpired_iff _ _ _).mp h
+  intro e
+  unfold verifyLightBlock at e
+  simp only [hl, if_pos hge] at e
+  cases hseq : c.cfg.sequential with
+  | true =>
+    simp only [hseq, if_true] at e
+    have := verifySequential_expired (new := new) h'
+    cases hv : (verifySequential c latest new now).2 with
+    | ok u => exact this hv
+    | error er => rw [hv] at e; cases e
+  | false =>
+    simp only [hseq, Bool.false_eq_true, if_false] at e
+    have := vsap_expired now latest c.cfg.fuel c new h'
+    cases hv : (verifySkippingAgainstPrimary now latest c.cfg.fuel c new).2 with
+    | ok u => exact this hv
+    | error er => rw [hv] at e; cases e
 
 /-! ## the trusted store -/
 
@@ -254,6 +298,41 @@ theorem conflict_halts_detector {c : Client} {trace : List LightBlock} {h : Ligh
     detectLoop trace h now (i :: rest) c m rm = (c2, .error e) := by
   simp only [detectLoop, hw, hc, hh]
 
+/-- **conflict_reported_any_order** (detector level, every arrival order, every position). Let
+witness `i` be one whose reply — whenever its turn comes, i.e. in every client state with the same
+configuration and the same providers in the same roles — is a conflicting header that
+`handleConflictingHeaders` answers with the attack error (it backs its header along the trace). If `i`
+occurs anywhere in the arrival order chosen by the scheduler, `detectDivergence` returns
+`ErrLightClientAttack` — whatever the other witnesses reply before it (matching, erroring, silent,
+lying, other conflicts: no earlier reply can pre-empt or mask it; an earlier conflict can only
+produce the same error earlier). The evidence log has grown by an entry addressed to a current
+witness followed by at most one entry addressed to the primary (the primary's entry exists exactly
+when the primary backs its own header along the witness trace, see `conflict_reported`). No arrival
+order loses the report in the model; what the model does not contain is cancellation of the caller's
+context (the code returns the context error first). `hnp` excludes the code's index-out-of-range
+corner (an empty examined trace needs two different headers with one hash). -/
+theorem conflict_reported_any_order {c : Client} {trace : List LightBlock} {h : LightBlock} {now : Int}
+    {i : Nat} {w : Prov}
+    (hlen : 2 ≤ trace.length) (hlast : trace.getLast? = some h)
+    (hw : c.witnesses[i]? = some w) (hi : i ∈ c.sched c.witnesses)
+    (hconf : ∀ c1, Sim c c1 →
+      ∃ b idx, (compareNewHeaderWithWitness c1.calls h w i).2 = .conflict b idx ∧
+        (handleConflictingHeaders { c1 with calls := (compareNewHeaderWithWitness c1.calls h w i).1 }
+          trace b idx now).2 = some .attack)
+    (hnp : ∀ c1, Sim c c1 → ∀ b idx, (handleConflictingHeaders c1 trace b idx now).2 ≠ some .panic) :
+    ∃ c', detectDivergence c trace now = (c', .error .attack) ∧
+      ∃ sup ev1 rest, sup ∈ c.witnesses ∧ c'.evidence = c.evidence ++ (sup.id, ev1) :: rest ∧
+        (rest = [] ∨ ∃ ev2, rest = [(c.primary.id, ev2)]) := by
+  unfold detectDivergence
+  rw [if_neg (by omega)]
+  simp only [hlast]
+  have hne : c.witnesses.isEmpty = false := by
+    cases hc : c.witnesses with
+    | nil => rw [hc] at hw; simp at hw
+    | cons x r => rfl
+  simp only [hne]
+  exact detectLoop_conflict_any_order trace h now c i w hw hconf hnp _ c false [] ⟨rfl, rfl, rfl⟩ hi
+
 /-- a witness that answers the target height with a block of another hash is reported as
 conflicting (never as matching) -/
 theorem different_header_is_conflict {k : Calls} {h : LightBlock} {w : Prov} {idx : Nat} {lb : LightBlock}
@@ -347,6 +426,31 @@ example : ((verifyLightBlockAtHeight (start (honest 1) [liar 2]) 3 35).1.evidenc
     fun e => (e.1, e.2.conflicting)) = [(2, 3), (1, 5)] := by decide
 example : ((verifyLightBlockAtHeight (start (honest 1) [liar 2, honest 3]) 3 35).1.store.blocks.map (·.hash)) = [1] := by
   decide
+/-- the hypotheses of `conflict_reported_any_order` are satisfiable: the lying witness backs its header
+in every state with these providers (its script does not depend on the call history) -/
+example : ∀ c1, Sim (start (honest 1) [silent 3, liar 2]) c1 →
+    ∃ b idx, (compareNewHeaderWithWitness c1.calls b3 (liar 2) 1).2 = .conflict b idx ∧
+      (handleConflictingHeaders { c1 with calls := (compareNewHeaderWithWitness c1.calls b3 (liar 2) 1).1 }
+        [b1, b3] b idx 35).2 = some .attack := by
+  intro c1 hs
+  obtain ⟨cfg1, p1, ws1, k1, st1, l1, ev1, sc1⟩ := c1
+  obtain ⟨h1, h2, h3⟩ := hs
+  simp only at h1 h2 h3
+  subst h1 h2 h3
+  refine ⟨f3, 1, ?_, ?_⟩
+  · with_unfolding_all rfl
+  · with_unfolding_all rfl
+
+/-- expiry corner: with period 1000 the block of time 10 is usable at now = 1009 and expired at 1010 -/
+example : headerExpired b1 1000 1009 = false ∧ headerExpired b1 1000 1010 = true := by decide
+example : errOf (verifyLightBlockAtHeight (start (honest 1) [honest 2]) 3 1010).2 =
+    some (.vfail 1 3 .expired) := by decide
+/-- backwards verification is the model's (and the code's) extension of the statement and does NOT
+look at the trusting period: hash links from a stored header are followed even when it is expired -/
+example : ((verifyLightBlockAtHeight
+      (match newClient cfg (honest 1) [honest 2] fifo 1000 3 3 with | .ok c => c | .error _ => default)
+      1 5000).2.toOption.map (·.hash)) = some 1 := by decide
+
 /-- a skipping trace (hypothesis of `skipping_trace_valid`) -/
 example : ((verifySkipping cfg (fun _ => 0) (honest 1) b1 b3 35).2.toOption.map fun tr => tr.map (·.hash)) =
     some [1, 3] := by decide
